@@ -158,11 +158,12 @@ class TransposeIndexRule(AbstractBinaryRule):
         if right.unique_indices:
             raise NoReduction
 
-        dtype = right.out_promoted_dtype
         shapes = {leaf.shape for leaf in jax.tree.leaves(right.in_structure())}
-        if len(shapes) > 1:
+        if len(shapes) != 1:
+            # leaves of different shapes, or no leaf at all (an empty pytree has no promoted dtype)
             raise NoReduction
         shape = shapes.pop()
+        dtype = right.out_promoted_dtype
 
         axis = indexed_axes[0]
         index = right.indices[axis]
